@@ -308,11 +308,51 @@ func decodeBytes(b []byte) (g *cdrFile.CDRFile, panicked bool) {
 	return &out, false
 }
 
+func bigRoundTrip(f *cdrFile.CDRFile) (out string) {
+	path := tmpPath()
+	saved := os.Stdout
+	devnull, _ := os.OpenFile(os.DevNull, os.O_WRONLY, 0)
+	os.Stdout = devnull
+	defer func() {
+		os.Stdout = saved
+		devnull.Close()
+		if x := recover(); x != nil {
+			out = "panic"
+		}
+	}()
+	f.Encoding(path)
+	st, err := os.Stat(path)
+	if err != nil {
+		return "nofile"
+	}
+	var g cdrFile.CDRFile
+	g.Decoding(path)
+	eq := 0
+	if sFile(&cdrFile.CDRFile{Hdr: g.Hdr}) == sFile(&cdrFile.CDRFile{Hdr: f.Hdr}) && len(g.CdrList) == len(f.CdrList) {
+		eq = 1
+		for i := range g.CdrList {
+			if g.CdrList[i].Hdr != f.CdrList[i].Hdr || !bytes.Equal(g.CdrList[i].CdrByte, f.CdrList[i].CdrByte) {
+				eq = 0
+				break
+			}
+		}
+	}
+	return fmt.Sprintf("ok len=%d flen=%d n=%d eq=%d", st.Size(), g.Hdr.FileLength, len(g.CdrList), eq)
+}
+
 func init() {
 	streams["cdrfile"] = &stream{
 		gen: func(o genOpts, w *bufio.Writer) {
 			r := &rng{s: o.seed}
 			big := o.tier == "thorough"
+			// files beyond 2^16 / 2^24 octets (records of up to 65535 octets)
+			fmt.Fprintf(w, "cdrfile big 3 65535 %d\n", r.intn(256))
+			fmt.Fprintf(w, "cdrfile big 257 65535 %d\n", r.intn(256))
+			fmt.Fprintf(w, "cdrfile big %d %d %d\n", 300+r.intn(200), 60000+r.intn(5536), r.intn(256))
+			if big {
+				fmt.Fprintf(w, "cdrfile big 2100 65535 %d\n", r.intn(256))
+				fmt.Fprintf(w, "cdrfile big 4096 17 %d\n", r.intn(256))
+			}
 			// all 64 identifier pairs first (exhaustive sub-space), in both tiers
 			for i := 0; i < 64; i++ {
 				fmt.Fprintf(w, "cdrfile rt %s\n", sFile(genWF(r, i, false)))
@@ -416,6 +456,34 @@ func init() {
 				default:
 				}
 				return "ok " + hexOf(want)
+			case "big":
+				// cdrfile big <records> <payload octets> <fill>: a well-formed file too large for the line protocol, built
+				// on both sides from the three numbers; written, read back and compared with the structure
+				if len(toks) != 4 {
+					return "bad-op"
+				}
+				p := &tokr{t: toks[1:], ok: true}
+				nrec, plen, fill := int(p.nat()), int(p.nat()), int(p.nat())
+				if !p.ok || nrec > 4096 || plen > 65535 {
+					return "bad-op"
+				}
+				f := &cdrFile.CDRFile{}
+				f.Hdr.HeaderLength = 52
+				f.Hdr.FileLength = uint32(52 + nrec*(4+plen))
+				f.Hdr.HighReleaseIdentifier, f.Hdr.HighVersionIdentifier = 6, 3
+				f.Hdr.LowReleaseIdentifier, f.Hdr.LowVersionIdentifier = 6, 3
+				f.Hdr.NumberOfCdrsInFile = uint32(nrec)
+				f.Hdr.FileSequenceNumber = 7
+				f.Hdr.FileClosureTriggerReason = 4
+				for i := 0; i < nrec; i++ {
+					body := make([]byte, plen)
+					for j := range body {
+						body[j] = byte(fill + i*31 + j)
+					}
+					f.CdrList = append(f.CdrList, cdrFile.CDR{Hdr: cdrFile.CdrHeader{CdrLength: uint16(plen), ReleaseIdentifier: 6, VersionIdentifier: 3,
+						DataRecordFormat: 1, TsNumber: 0}, CdrByte: body})
+				}
+				return bigRoundTrip(f)
 			case "rt":
 				f, ok := pFile(toks[1:])
 				if !ok {
